@@ -32,7 +32,7 @@ RULE = ("schedules of 1-8 queued requests (GET/POST with bodies, unique path and
         "a query in their path, several queued before the earlier one is built; payload kinds per request (data= JSON, fargs= form, body= bytes, none) on "
         "GET/POST/PUT/PATCH/DELETE with explicit or default headers; reconnectable connectors (reconnect timer 1-12 passes of virtual "
         "time) against servers that close after replies, requests queued and popped during the cutoff, redirects followed across a close; in ~45% of the cases the answers are consumed through Client.respond(); replies optionally preceded by an interim 100 Continue (bare or with a header, same segment or earlier); in ~30% of the cases the application hands its own requests/responses/events/redirects "
-        "containers (empty or pre-filled) to the constructor and works on those; request paths with characters quote() changes and requests that reuse the previous path/method (Client.request without path, raw dicts without path) "
+        "containers (empty or pre-filled) to the constructor and works on those; request paths with characters quote() changes and requests that reuse the previous path/method; scenes where the server closes the idle keep-alive connection between groups of requests (idle passes with an empty queue, requests queued afterwards) (Client.request without path, raw dicts without path) "
         "(after every pass / only at the end / in bursts).  A case is non-trivial when >= 3 requests were queued and some reply was delayed, "
         "fragmented or a redirect")
 MODELLED = ["response parsing (real Respondent) is abstracted to 'a complete reply with status s and Location l was "
@@ -56,6 +56,7 @@ class Net:
         self.k = 0            # index of next reply
         self.wire = []        # [conn_id, secure, host_index, path]
         self.asked = []       # raw request-line paths, in order
+        self.lost = 0         # request bytes written to a connection the server had already closed
         self.socks = []
         self.nconn = 0
 
@@ -95,8 +96,9 @@ class FakeSock:
         raise BlockingIOError(errno.EAGAIN, "would block")
 
     def send(self, data):
-        if self.eof:
-            raise ConnectionResetError(errno.ECONNRESET, "reset")
+        if self.eof:   # the peer has closed: like a kernel, the first writes are accepted and the bytes are lost
+            self.net.lost += len(data)
+            return len(data)
         self.rx += bytes(data)
         self._serve()
         return len(data)
@@ -139,7 +141,9 @@ class FakeSock:
             for j in range(0, len(data), step):
                 self.pending.append([d, data[j:j + step]])
                 d += 1
-            if closes_after(r, verb):
+            if r.get("idle_close"):   # the server closes the idle keep-alive connection some passes after its reply
+                self.pending.append([d - 1 + r["idle_close"], None])
+            elif closes_after(r, verb):
                 self.pending.append([d - 1, None])
 
     def tick(self):
@@ -290,7 +294,7 @@ def reply_body(k, r):
 def closes_after(r, verb):
     """Does the scripted server close the connection after this reply?"""
     bodiless = verb == "HEAD" or r.get("status", 200) in (204, 304)
-    return bool(r.get("close") or (r.get("framing") == "close" and not bodiless))
+    return bool(r.get("close") or r.get("idle_close") or (r.get("framing") == "close" and not bodiless))
 
 
 def render_reply(k, r, verb="GET"):
@@ -305,7 +309,7 @@ def render_reply(k, r, verb="GET"):
         if r.get("close"):
             lines.append("Connection: close")
         return ("\r\n".join(lines) + "\r\n\r\n").encode("latin-1")
-    if r.get("close") and fr != "close":
+    if r.get("close") and fr != "close" and not r.get("idle_close"):
         lines.append("Connection: close")
     if verb == "HEAD":  # as real servers do: the headers of the GET reply (non-zero Content-Length), no body
         lines.append(f"Content-Length: {len(body)}")
@@ -547,7 +551,7 @@ def run_impl(case):
             kind, num, q = split_target(path)
             wire.append([cid, bool(sec), hi, kind, num, verb, q, pay, ctk])
         return {"psnaps": {str(k): v for k, v in psnaps.items()}, "msnaps": {str(k): v for k, v in msnaps.items()},
-                "asked": list(net.asked), "takes": takes, "taken_each": take_mode == "each", "taken_end": take_mode == "end",
+                "asked": list(net.asked), "lost": net.lost, "takes": takes, "taken_each": take_mode == "each", "taken_end": take_mode == "end",
                 "snaps": {str(k): v for k, v in snaps.items()}, "ctsnaps": {str(k): v for k, v in ctsnaps.items()},
                 "trace": trace, "entries": entries, "wire": wire, "escaped": escaped, "unsent": len(client.connector.txbs),
                 "final": [bool(client.waited), len(req_q), len(client.redirects)], "identity": identity,
@@ -715,6 +719,8 @@ def oracle(case, obs):
     for e, o in zip(obs["entries"], origins):
         if not e["history"] and o in evof and e["pay"] != pay_of(evof[o]):
             return f"entry for request {o}: request dict shows payload {e['pay']}, queued with {pay_of(evof[o])}"
+    if obs.get("lost"):
+        return f"{obs['lost']} request bytes were written to a connection the server had closed (the close was not noticed) and lost"
     # nothing left unsent / unanswered once the schedule has drained
     closed = any(closes_after(replies[j] if j < len(replies) else {}, obs["wire"][j][5])
                  for j in range(min(obs["replies_used"], len(obs["wire"]))))
@@ -849,6 +855,12 @@ def directed():
          "replies": [{"status": 404, "close": True}, {"status": 200, "close": True}, {"status": 200}], "drain": 30},
         {"reconnect": 5, "events": _sched([1, 2]), "replies": [{"status": 302, "loc": rel, "close": True}, {"status": 200}, {"status": 200}], "drain": 30},
         {"reconnect": 4, "events": _sched([1, 2]), "replies": [{"status": 200, "framing": "close"}, {"status": 200, "frags": 2, "framing": "chunked"}], "drain": 30},
+        # the server closes the IDLE keep-alive connection between requests; idle passes with an empty queue; a request
+        # queued afterwards must go out on a fresh connection and be answered
+        {"reconnect": 3, "events": [["enq", 1, "GET"]] + [["pass"]] * 10 + [["enq", 2, "POST"], ["pass"], ["pass"], ["enq", 3, "GET"]],
+         "replies": [{"idle_close": 3}, {}, {}], "drain": 30},
+        {"reconnect": 2, "take": "each", "events": [["enq", 1, "GET"], ["enq", 2, "GET"]] + [["pass"]] * 14 + [["enq", 3, "HEAD"]] + [["pass"]] * 9 + [["enq", 4, "GET"]],
+         "replies": [{}, {"idle_close": 2, "frags": 2}, {"idle_close": 4}, {}], "drain": 30},
         # payload kinds over one client's history: data= / fargs= followed by body-only and payload-less non-GET requests
         {"events": [["enq", 1, "POST", [], [], "data", True], ["enq", 2, "POST", [], [], "body", True], ["enq", 3, "DELETE", [], [], "none", True],
                     ["enq", 4, "GET", [], [], "none", True]], "replies": [{}, {}, {}, {}]},
@@ -979,9 +991,39 @@ def gen_case(rng):
     return case
 
 
+def gen_idle_close(rng):
+    """Scenes in which the server closes the idle keep-alive connection between requests: every group of requests is
+    fully answered, then the close arrives during idle passes with an empty queue, then the next group is queued."""
+    events, replies, tag = [], [], rng.randrange(1, 20)
+    for g in range(rng.randint(2, 4)):
+        k = rng.randint(1, 3)
+        span = 0
+        for j in range(k):
+            events.append(["enq", tag, rng.choice(["GET", "GET", "POST", "HEAD", "PUT"])])
+            tag += rng.randint(1, 3)
+            r = {"status": rng.choice([200, 200, 404])}
+            if rng.random() < 0.4:
+                r["delay"] = rng.randint(1, 2)
+            if rng.random() < 0.4:
+                r["frags"] = rng.randint(2, 3)
+            if r["status"] == 200 and rng.random() < 0.3:
+                r["framing"] = "chunked"
+            span += r.get("delay", 0) + r.get("frags", 1) + 2
+            replies.append(r)
+        idle = rng.randint(1, 5)
+        replies[-1]["idle_close"] = idle
+        events += [["pass"]] * (span + idle + rng.randint(2, 12))   # answered, closed while idle, some more idle passes
+    case = {"events": events, "replies": replies, "reconnect": rng.choice([1, 2, 4, 7]), "drain": 40}
+    if rng.random() < 0.4:
+        case["take"] = rng.choice(["each", "end"])
+    if rng.random() < 0.3:
+        case["owned"] = "empty"
+    return case
+
+
 def generate(rng, tier):
     n = 700 if tier == "quick" else 12000
-    return [gen_case(rng) for _ in range(n)]
+    return [gen_case(rng) for _ in range(n)] + [gen_idle_close(rng) for _ in range(n // 10)]
 
 
 def shrink(case):
